@@ -245,6 +245,11 @@ def rule_sections(repo: Repo) -> RuleResult:
 
 def _into(p, e: ast.AST, attr: str) -> bool:
     """the expression denotes (a part of) the container stored in the field `attr`"""
+    base = e
+    while isinstance(base, (ast.Subscript, ast.Attribute)) and not (isinstance(base, ast.Attribute) and base.attr == attr):
+        base = base.value
+    if (isinstance(base, ast.Name) and base.id.split("__i")[0] == attr) or (isinstance(base, ast.Attribute) and base.attr == attr):
+        return True
     try:
         return any(f"attr:{attr}" in x for x in p.trace(e))
     except KeyError:
